@@ -22,6 +22,30 @@ fn nonce12(n: &[u8]) -> &[u8; 12] {
     <&[u8; 12]>::try_from(n).expect("TYPE")
 }
 
+/// a Tag stored K bytes after the start of a 32-byte aligned record
+#[repr(C, align(32))]
+struct Rec<const K: usize> {
+    hdr: [u8; K],
+    tag: Tag,
+}
+fn finalize_at<const R: usize>(c: ContextDecryption<R>, tag: Tag, k: usize) -> DecryptionResult {
+    macro_rules! at {
+        ($($k:literal)*) => {
+            match k {
+                $($k => {
+                    let rec = Box::new(Rec::<$k> { hdr: [0xa5; $k], tag });
+                    assert_eq!((&rec.tag as *const Tag as usize) % 32, $k);
+                    let r = c.finalize(&rec.tag);
+                    assert!(rec.hdr.iter().all(|b| *b == 0xa5));
+                    r
+                })*
+                _ => panic!("HARNESS: tag offset {}", k),
+            }
+        };
+    }
+    at!(0 1 2 3 4 5 6 7 8 9 10 11 12 13 14 15 16 17 20 24 31)
+}
+
 enum Inc<const R: usize> {
     Aad(Context<R>),
     Enc(ContextEncryption<R>),
@@ -200,7 +224,9 @@ fn inc_history<const R: usize>(key: &[u8], nonce: &[u8], steps: &[&str]) -> Vec<
                 Inc::Dec(c) => {
                     let t = expand(p[1]);
                     let tag = Tag(<[u8; 16]>::try_from(&t[..]).expect("TYPE"));
-                    let r = c.finalize(&tag);
+                    // fin.<tag>.<k> : the caller's Tag lives k bytes into a 32-byte aligned record (Tag has alignment 1)
+                    let k = if p.len() > 2 { usz(p[2]) } else { 0 };
+                    let r = finalize_at(c, tag, k);
                     Some(if r == DecryptionResult::Match { "T".into() } else { "F".into() })
                 }
                 _ => panic!("HARNESS"),
